@@ -73,6 +73,12 @@ def parseEv (j : Json) : Option Ev :=
     match asStr tag with
     | "complete" => some (.complete (asNat t) (Driver.Status.asBool ok) (Driver.Status.parseWrites writes) (Driver.Status.optNat res))
     | _ => (Driver.Status.parseEv j).map .st
+  | [tag, t, ok, writes, res, saveable] =>
+    match asStr tag with
+    -- `["complete", t, actionsOk, writes, res, saveable]`: values / result that the DB can not store
+    | "complete" => some (.complete (asNat t) (completeOk (Driver.Status.asBool ok) (Driver.Status.asBool saveable))
+                            (Driver.Status.parseWrites writes) (Driver.Status.optNat res))
+    | _ => (Driver.Status.parseEv j).map .st
   | _ => (Driver.Status.parseEv j).map .st
 
 def nullJ : Json := Json.mkObj [("kind", Json.str "-")]
